@@ -1,2 +1,229 @@
 import FpgoVerif.Model.C20
-/-! helper lemmas (C20) -/
+/-! Helper lemmas for the CurryDef transition system of C20: the invariant, its preservation by every
+    atomic step, the frozen-after-done invariant, and the sequential `Call`. -/
+
+namespace FpgoVerif.C20
+
+/-- the argument lists `fn` must have seen after the accepted calls `h`: every non-empty prefix, flattened -/
+def prefixesFrom (acc : List Int) : List (List Int) → List (List Int)
+  | [] => []
+  | a :: t => (acc ++ a) :: prefixesFrom (acc ++ a) t
+
+def prefixes (h : List (List Int)) : List (List Int) := prefixesFrom [] h
+
+theorem prefixesFrom_snoc (acc : List Int) (h : List (List Int)) (a : List Int) :
+    prefixesFrom acc (h ++ [a]) = prefixesFrom acc h ++ [acc ++ (h ++ [a]).flatten] := by
+  induction h generalizing acc with
+  | nil => simp [prefixesFrom]
+  | cons b t ih => simp [prefixesFrom, ih, List.append_assoc]
+
+theorem prefixes_snoc (h : List (List Int)) (a : List Int) :
+    prefixes (h ++ [a]) = prefixes h ++ [(h ++ [a]).flatten] := by
+  simpa [prefixes] using prefixesFrom_snoc [] h a
+
+theorem prefixesFrom_length (acc : List Int) (h : List (List Int)) : (prefixesFrom acc h).length = h.length := by
+  induction h generalizing acc with
+  | nil => rfl
+  | cons b t ih => simp [prefixesFrom, ih]
+
+theorem prefixesFrom_getElem? (acc : List Int) (h : List (List Int)) (i : Nat) (hi : i < h.length) :
+    (prefixesFrom acc h)[i]? = some (acc ++ (h.take (i + 1)).flatten) := by
+  induction h generalizing acc i with
+  | nil => simp at hi
+  | cons b t ih =>
+    cases i with
+    | zero => simp [prefixesFrom]
+    | succ j =>
+      simp only [prefixesFrom, List.getElem?_cons_succ]
+      rw [ih (acc ++ b) j (by simpa using hi)]
+      simp [List.append_assoc]
+
+theorem prefixes_getElem? (h : List (List Int)) (i : Nat) (hi : i < h.length) :
+    (prefixes h)[i]? = some ((h.take (i + 1)).flatten) := by
+  simpa [prefixes] using prefixesFrom_getElem? [] h i hi
+
+/-- what holds of the ghost fields, by phase of the current call -/
+def CShape (c : Curry) : Prop :=
+  match c.cur with
+  | none => c.hist.Sublist c.lockOrder ∧ c.log = prefixes c.hist ∧ (c.isDone = false → c.hist = c.lockOrder)
+  | some (.checking, a) =>
+    ∃ lo, c.lockOrder = lo ++ [a] ∧ c.hist.Sublist lo ∧ c.log = prefixes c.hist ∧ (c.isDone = false → c.hist = lo)
+  | some (.appending, a) =>
+    ∃ lo, c.lockOrder = lo ++ [a] ∧ c.hist = lo ∧ c.log = prefixes c.hist
+  | some (.calling, a) =>
+    ∃ lo, c.lockOrder = lo ++ [a] ∧ c.hist = lo ++ [a] ∧ c.log = prefixes lo
+  | some (.unlocking, _) =>
+    c.hist.Sublist c.lockOrder ∧ c.log = prefixes c.hist ∧ (c.isDone = false → c.hist = c.lockOrder)
+
+structure CInv (fn : CurryFn) (c : Curry) : Prop where
+  args_eq : c.args = c.hist.flatten
+  result_eq : c.result = match c.log.getLast? with | none => 0 | some l => (fn l).1
+  shape : CShape c
+
+theorem cinv_init (fn : CurryFn) (scripts) : CInv fn (Curry.init scripts) :=
+  ⟨rfl, rfl, by simp [CShape, Curry.init, prefixes, prefixesFrom]⟩
+
+theorem cinv_acquire {fn : CurryFn} {c c' : Curry} {t : Nat} (h : CInv fn c) (he : c.acquire t = some c') :
+    CInv fn c' := by
+  unfold Curry.acquire at he
+  split at he
+  · rename_i hcur _
+    injection he with he; subst he
+    have hs := h.shape
+    simp only [CShape, hcur] at hs
+    refine ⟨h.args_eq, h.result_eq, ?_⟩
+    simp only [CShape]
+    exact ⟨c.lockOrder, rfl, hs.1, hs.2.1, hs.2.2⟩
+  · cases he
+
+theorem cinv_markDone {fn : CurryFn} {c : Curry} (h : CInv fn c) : CInv fn c.markDone := by
+  refine ⟨h.args_eq, h.result_eq, ?_⟩
+  have hs := h.shape
+  unfold CShape at hs ⊢
+  simp only [Curry.markDone]
+  split <;> rename_i hcur <;> simp only [hcur] at hs
+  · exact ⟨hs.1, hs.2.1, by simp⟩
+  · obtain ⟨lo, h1, h2, h3, _⟩ := hs; exact ⟨lo, h1, h2, h3, by simp⟩
+  · exact hs
+  · exact hs
+  · exact ⟨hs.1, hs.2.1, by simp⟩
+
+theorem cinv_advance {fn : CurryFn} {c c' : Curry} (h : CInv fn c) (he : c.advance fn = some c') :
+    CInv fn c' := by
+  have hs := h.shape
+  unfold Curry.advance at he
+  split at he
+  · cases he
+  · -- checking
+    rename_i a hcur
+    injection he with he; subst he
+    simp only [CShape, hcur] at hs
+    obtain ⟨lo, h1, h2, h3, h4⟩ := hs
+    refine ⟨h.args_eq, h.result_eq, ?_⟩
+    cases hd : c.isDone with
+    | true =>
+      simp only [CShape, if_true]
+      exact ⟨by rw [h1]; exact h2.trans (List.sublist_append_left lo [a]), h3, by simp⟩
+    | false =>
+      simp only [CShape]
+      exact ⟨lo, h1, h4 hd, h3⟩
+  · -- appending
+    rename_i a hcur
+    injection he with he; subst he
+    simp only [CShape, hcur] at hs
+    obtain ⟨lo, h1, h2, h3⟩ := hs
+    refine ⟨by simp [h.args_eq], h.result_eq, ?_⟩
+    simp only [CShape]
+    exact ⟨lo, h1, by rw [h2], by rw [h3, h2]⟩
+  · -- calling
+    rename_i a hcur
+    injection he with he; subst he
+    simp only [CShape, hcur] at hs
+    obtain ⟨lo, h1, h2, h3⟩ := hs
+    refine ⟨h.args_eq, by simp, ?_⟩
+    simp only [CShape]
+    refine ⟨by rw [h1, h2]; exact List.Sublist.refl _, ?_, fun _ => by rw [h1, h2]⟩
+    rw [h3, h2, prefixes_snoc, h.args_eq, h2]
+  · -- unlocking
+    rename_i a hcur
+    injection he with he; subst he
+    simp only [CShape, hcur] at hs
+    refine ⟨h.args_eq, h.result_eq, ?_⟩
+    simp only [CShape]
+    exact hs
+
+theorem cinv_step {fn : CurryFn} {c c' : Curry} (h : CInv fn c) (st : CStep fn c c') : CInv fn c' := by
+  cases st with
+  | acquire t he => exact cinv_acquire h he
+  | advance he => exact cinv_advance h he
+  | markDone => exact cinv_markDone h
+
+theorem cinv_reach {fn : CurryFn} {c c' : Curry} (h : CInv fn c) (r : CReach fn c c') : CInv fn c' := by
+  induction r with
+  | refl => exact h
+  | step _ st ih => exact cinv_step ih st
+
+/-! ### frozen after done -/
+
+/-- done, and the current call (if any) has not passed / will not pass the done-check -/
+def Quiet (c : Curry) : Prop :=
+  c.isDone = true ∧ (c.cur = none ∨ ∃ a, c.cur = some (.checking, a) ∨ c.cur = some (.unlocking, a))
+
+theorem quiet_step {fn : CurryFn} {c c' : Curry} (h : Quiet c) (st : CStep fn c c') :
+    Quiet c' ∧ c'.args = c.args ∧ c'.result = c.result ∧ c'.log = c.log ∧ c'.hist = c.hist := by
+  obtain ⟨hd, hc⟩ := h
+  cases st with
+  | acquire t he =>
+    unfold Curry.acquire at he
+    split at he
+    · injection he with he; subst he
+      exact ⟨⟨hd, Or.inr ⟨_, Or.inl rfl⟩⟩, rfl, rfl, rfl, rfl⟩
+    · cases he
+  | advance he =>
+    unfold Curry.advance at he
+    rcases hc with hc | ⟨a, hc | hc⟩ <;> simp only [hc] at he
+    · cases he
+    · injection he with he; subst he
+      refine ⟨⟨hd, Or.inr ⟨a, Or.inr ?_⟩⟩, rfl, rfl, rfl, rfl⟩
+      simp [hd]
+    · injection he with he; subst he
+      exact ⟨⟨hd, Or.inl rfl⟩, rfl, rfl, rfl, rfl⟩
+  | markDone =>
+    exact ⟨⟨rfl, hc⟩, rfl, rfl, rfl, rfl⟩
+
+theorem quiet_reach {fn : CurryFn} {c c' : Curry} (h : Quiet c) (r : CReach fn c c') :
+    Quiet c' ∧ c'.args = c.args ∧ c'.result = c.result ∧ c'.log = c.log ∧ c'.hist = c.hist := by
+  induction r with
+  | refl => exact ⟨h, rfl, rfl, rfl, rfl⟩
+  | step _ st ih =>
+    obtain ⟨hq, h1, h2, h3, h4⟩ := ih
+    obtain ⟨hq', g1, g2, g3, g4⟩ := quiet_step hq st
+    exact ⟨hq', g1.trans h1, g2.trans h2, g3.trans h3, g4.trans h4⟩
+
+/-! ### the sequential Call -/
+
+def Curry.abs (c : Curry) : Spec.CurryS := ⟨c.args, c.result, c.isDone, c.log⟩
+
+theorem callSeq_abs (fn : CurryFn) (c : Curry) (a : List Int) (hcur : c.cur = none) :
+    (c.callSeq fn a).abs = c.abs.call fn a ∧ (c.callSeq fn a).cur = none := by
+  cases hd : c.isDone <;>
+    simp [Curry.callSeq, Curry.acquire, Curry.finish, Curry.advance, Curry.abs, Spec.CurryS.call, hcur, hd]
+
+theorem callSeq_reach (fn : CurryFn) (c : Curry) (a : List Int) (hcur : c.cur = none) :
+    CReach fn { c with pending := [[a]] } (c.callSeq fn a) := by
+  have hacq : ({ c with pending := [[a]] } : Curry).acquire 0 =
+      some { c with pending := [[]], cur := some (.checking, a), lockOrder := c.lockOrder ++ [a] } := by
+    simp [Curry.acquire, hcur]
+  have r1 := CReach.step (CReach.refl _) (CStep.acquire (fn := fn) 0 hacq)
+  rcases Bool.eq_false_or_eq_true c.isDone with hd | hd
+  · have e : c.callSeq fn a = { c with pending := [[]], cur := none, lockOrder := c.lockOrder ++ [a] } := by
+      simp [Curry.callSeq, Curry.acquire, Curry.finish, Curry.advance, hcur, hd]
+    rw [e]
+    have r2 := CReach.step r1 (CStep.advance
+      (c' := { c with pending := [[]], cur := some (.unlocking, a), lockOrder := c.lockOrder ++ [a] })
+      (by simp [Curry.advance, hd]))
+    exact CReach.step r2 (CStep.advance (by simp [Curry.advance]))
+  · have e : c.callSeq fn a =
+        { c with
+          pending := [[]], cur := none, lockOrder := c.lockOrder ++ [a],
+          args := c.args ++ a, hist := c.hist ++ [a], log := c.log ++ [c.args ++ a],
+          result := (fn (c.args ++ a)).1, isDone := c.isDone || (fn (c.args ++ a)).2 } := by
+      simp [Curry.callSeq, Curry.acquire, Curry.finish, Curry.advance, hcur, hd]
+    rw [e]
+    have r2 := CReach.step r1 (CStep.advance
+      (c' := { c with pending := [[]], cur := some (.appending, a), lockOrder := c.lockOrder ++ [a] })
+      (by simp [Curry.advance, hd]))
+    have r3 := CReach.step r2 (CStep.advance
+      (c' := { c with
+               pending := [[]], cur := some (.calling, a), lockOrder := c.lockOrder ++ [a],
+               args := c.args ++ a, hist := c.hist ++ [a] })
+      (by simp [Curry.advance]))
+    have r4 := CReach.step r3 (CStep.advance
+      (c' := { c with
+               pending := [[]], cur := some (.unlocking, a), lockOrder := c.lockOrder ++ [a],
+               args := c.args ++ a, hist := c.hist ++ [a], log := c.log ++ [c.args ++ a],
+               result := (fn (c.args ++ a)).1, isDone := c.isDone || (fn (c.args ++ a)).2 })
+      (by simp [Curry.advance]))
+    exact CReach.step r4 (CStep.advance (by simp [Curry.advance]))
+
+end FpgoVerif.C20
